@@ -515,8 +515,14 @@ def r3_periodic(ctx):
                    and "fractions = fractions[np.newaxis, :]" in post and "disp = disp[np.newaxis, :]" in post,
                    "a single coordinate is lifted to (1,3) and the single row returned", st.lineno)
     # returns
-    rets = sorted(ast.unparse(st.value) for st in stmts(f) if isinstance(st, ast.Return))
-    ctx.ob("R3.returns", GEO, "displacement", str(rets), rets == ["diff", "disp"], "box given -> disp, otherwise the plain difference", f.lineno)
+    from .. import facts as _facts
+    from ..exprnorm import spec as _spec
+    ret_nodes = [st for st in stmts(f) if isinstance(st, ast.Return)]
+    rets = sorted(ast.unparse(st.value) for st in ret_nodes)
+    under = {ast.unparse(st.value): _facts.facts_at(f, st) for st in ret_nodes}
+    ctx.ob("R3.returns", GEO, "displacement", str(rets) + ": disp under `box is not None`, diff otherwise",
+           rets == ["diff", "disp"] and _spec("box is not None") in under["disp"] and _spec("box is None") in under["diff"],
+           "box given -> the minimum-image displacement, otherwise the plain difference (and not the other way round)", f.lineno)
     # orthogonal helper
     o = g.func("_displacement_orthogonal_box")
     body = [st for st in stmts(o)]
@@ -959,6 +965,7 @@ def pairing(ctx, f, cfg, before, after, cond, rot, rule):
 
 
 MUTANTS = [
+    Mutant("box-branches-swapped-returns", GEO, "        return disp\n\n    else:\n        return diff\n", "        return diff\n\n    else:\n        return disp\n", "R3.returns"),
     Mutant("index-angle-forwards-dihedral", GEO, "_call_non_index_function(angle, 3,", "_call_non_index_function(dihedral, 3,", "R1.index-forward"),
     Mutant("index-arity", GEO, "_call_non_index_function(distance, 2,", "_call_non_index_function(distance, 3,", "R1.index-arity"),
     Mutant("gather-column", GEO, "indices[:, i], :]", "indices[:, 0], :]", "R1.gather"),
